@@ -654,14 +654,17 @@ def case_planner(ctx, inp):
             ctx.branch("merge:heap-path")
         elif len(cs) > n:
             ctx.branch("merge:homogeneous")
+        if 0 in cs:
+            ctx.branch("merge:zero-length-chunks")
         if got is None:
-            if n >= 1 and all(c > 0 for c in cs):
-                ctx.fail("merge_to_number raised for positive chunks and max_number >= 1", observed=impl)
+            if n >= 1:
+                ctx.fail("merge_to_number raised for max_number >= 1"
+                         + (" (zero-length chunks in the input)" if 0 in cs else ""), observed=impl)
             return
-        # clauses of merge_full_spec on the real output
-        if sum(got) != sum(cs) or len(got) > max(n, 1) and len(cs) > n or any(c <= 0 for c in got):
+        # clauses of merge_to_number_spec on the real output
+        if sum(got) != sum(cs) or len(got) > max(n, 1) and len(cs) > n or (all(c > 0 for c in cs) and any(c <= 0 for c in got)):
             ctx.fail("merge_to_number: result does not add up / too many chunks / empty chunk", observed=got)
-        if all(c > 0 for c in cs) and len(cs) > n >= 1 and len(got) != n:
+        if len(cs) > n >= 1 and len(got) != n:
             ctx.fail("merge_to_number: fewer chunks than max_number although more were available", observed=got)
         cum_in, acc = set(), 0
         for c in cs:
@@ -704,7 +707,12 @@ def case_planner(ctx, inp):
         if tuple(map(tuple, steps[-1])) != new:
             ctx.fail("plan_rechunk: last stage is not the target", observed=steps)
         for st in steps:
-            if len(st) != len(shape) or not all(valid_dim(c, s) for c, s in zip(st, shape)):
+            if inp.get("zeros"):
+                okst = len(st) == len(shape) and all(len(c) > 0 and sum(c) == s and all(v >= 0 for v in c) for c, s in zip(st, shape))
+                ctx.branch("plan:zero-length-chunks")
+            else:
+                okst = len(st) == len(shape) and all(valid_dim(c, s) for c, s in zip(st, shape))
+            if not okst:
                 ctx.fail("plan_rechunk: a stage is not a valid chunking of the shape", observed=steps)
                 break
         if len(steps) > 1:
@@ -757,7 +765,13 @@ def case_rechunk(ctx, inp):
     got = r.compute(scheduler="sync")
     if got.shape != x.shape or got.dtype != x.dtype or not np.array_equal(got, x):
         ctx.fail("rechunk changed the values", observed=got.tolist(), expected=x.tolist())
-    if not (len(r.chunks) == len(shape) and all(valid_dim(c, s) for c, s in zip(r.chunks, shape))):
+    if inp.get("zeros"):
+        # explicit targets with zero-length chunks are legal (dask allows them inside explicit tuples)
+        okc = len(r.chunks) == len(shape) and all(len(c) > 0 and sum(c) == s and all(v >= 0 for v in c) for c, s in zip(r.chunks, shape))
+        ctx.branch("api:zero-length-chunks")
+    else:
+        okc = len(r.chunks) == len(shape) and all(valid_dim(c, s) for c, s in zip(r.chunks, shape))
+    if not okc:
         ctx.fail("rechunk produced invalid chunks", observed=r.chunks)
     explicit = not isinstance(tgt, dict)
     if explicit and not kw.get("balance") and r.chunks != target:
@@ -1170,14 +1184,24 @@ def generate(ctx):
             n = rng.randint(1, 60)
             yield "planner", {"op": "balance", "cs": rand_comp(rng, n, rng.choice(["uniform", "uniform", "irregular", "ragged"]))}
         elif r < 0.8:
-            if rng.random() < 0.5:
+            rr = rng.random()
+            if rr < 0.4:
                 cs = [rng.randint(1, 9)] * rng.randint(1, 12)
-            else:
+            elif rr < 0.85:
                 cs = [rng.randint(1, 12) for _ in range(rng.randint(1, 10))]
+            elif rr < 0.95:
+                cs = rand_comp_zeros(rng, rng.randint(0, 20)) + ([0] if rng.random() < 0.3 else [])
+            else:
+                cs = [0] * rng.randint(1, 6)
             yield "planner", {"op": "merge", "cs": cs, "n": rng.randint(1, len(cs) + 1)}
         else:
             nd = rng.randint(1, 3)
             shape = [rng.randint(1, 30) for _ in range(nd)]
+            if rng.random() < 0.2:   # zero-length chunks inside source / target (legal in explicit tuples)
+                yield "planner", {"op": "plan", "old": [rand_comp_zeros(rng, s) for s in shape],
+                                  "new": [rand_comp_zeros(rng, s) for s in shape], "itemsize": rng.choice([1, 4, 8]),
+                                  "threshold": rng.choice([1, 1, 2]), "bsl": rng.choice([8, 16, 64, 256]), "zeros": True}
+                continue
             yield "planner", {"op": "plan", "old": [rand_comp(rng, s) for s in shape],
                               "new": [rand_comp(rng, s) for s in shape], "itemsize": rng.choice([1, 4, 8]),
                               "threshold": rng.choice([None, 1, 2, 4]), "bsl": rng.choice([None, 8, 64, 256, 4096])}
@@ -1200,6 +1224,14 @@ def generate(ctx):
                           "balance": True if rng.random() < 0.1 else None,
                           "method": rng.choice([None, None, None, "tasks", "p2p"]),
                           "dtype": rng.choice(["i8", "i4", "f8"])}
+    # zero-length chunks in the source and/or inside the explicit target, zero-length axes
+    for _ in range(ctx.n(60, 600)):
+        nd = rng.choice([1, 1, 2, 2, 3])
+        shape = [rng.randint(0, 7) for _ in range(nd)]
+        old = [rand_comp_zeros(rng, s) for s in shape]
+        target = [rand_comp_zeros(rng, s) if rng.random() < 0.5 else rand_comp(rng, s) for s in shape]
+        yield "rechunk", {"old": old, "target": target, "zeros": True, "threshold": rng.choice([None, 1]),
+                          "block_size_limit": rng.choice([None, 16, 64]), "dtype": "i8"}
     # transposition-like rechunks force multi-stage plans
     for _ in range(ctx.n(40, 400)):
         a, b = rng.randint(4, 10), rng.randint(4, 10)
